@@ -38,7 +38,7 @@ theorem toPend_inj {w : World} (hw : WheelInv w) {c₁ c₂ : Call} (h₁ : InWh
   have e₂ := hw.ent s₂ _ m₂
   unfold toPend at h
   simp only [Pend.mk.injEq] at h
-  obtain ⟨ho, hf, ht, hd, hh⟩ := h
+  obtain ⟨ho, hf, ht, hd, hh, hfp, hgv⟩ := h
   have hh' : c₁.handle = c₂.handle := by omega
   have hs : s₁ = s₂ := by
     have a := slot_of_handle e₁; have b := slot_of_handle e₂
@@ -55,7 +55,7 @@ theorem toPend_inj {w : World} (hw : WheelInv w) {c₁ c₂ : Call} (h₁ : InWh
   have hdue : c₁.due = c₂.due := by omega
   cases c₁; cases c₂
   simp only [Call.mk.injEq] at *
-  exact ⟨hser, ho, hf, ht, hh', hdue⟩
+  exact ⟨hser, ho, hf, ht, hh', hdue, hfp, hgv⟩
 
 /-- handles compare like serials inside one slot -/
 theorem handle_lt_of_serial_lt {w : World} {s : Nat} {p q : Int × Call} (ep : EntOK w s p) (eq : EntOK w s q)
@@ -156,8 +156,8 @@ theorem first_has_largest_handle {w : World} (hw : WheelInv w) {s : Nat} {x : In
     exact handle_lt_of_serial_lt (p := (x.1, c)) (q := x) ec ex hser
 
 /-- calls in the wheel after `new_call_out` -/
-theorem inWheel_newCallOut {w : World} (o f : Nat) (tag : String) (delay : Int) (c : Call) :
-    InWheel (newCallOut w o f tag delay).1 c ↔ (c = coCall w o f tag delay ∨ InWheel w c) := by
+theorem inWheel_newCallOut {w : World} (o f : Nat) (tag : String) (delay : Int) (fp : Bool) (c : Call) :
+    InWheel (newCallOut w o f tag delay fp).1 c ↔ (c = coCall w o f tag delay fp ∨ InWheel w c) := by
   rw [newCallOut_fst]
   constructor
   · rintro ⟨s, D, hm⟩
